@@ -534,6 +534,44 @@ const (
 // state, not a timeout; the stacks are in Wire.Deadlock.
 const QDeadlock = "deadlock"
 
+// FlowStallNow reports a flow-control stall on an unbuffered transport: both
+// ends are parked in Write (each waits for the other to read), every server
+// goroutine is parked and none of them reads from the network or waits on a
+// harness gate - and all of that still holds 20 ms later. Nobody will ever
+// read. (Whether a server may answer before it has read everything the peer
+// is still sending is not something the properties settle; callers treat the
+// state as unspecified, they just must not sit through a watchdog.)
+func (w *Wire) FlowStallNow() bool {
+	check := func() bool {
+		w.R.Hub.Lock()
+		both := w.C.BlockedInWriteLocked() && w.S.BlockedInWriteLocked() && !w.R.B.AtGateLocked()
+		w.R.Hub.Unlock()
+		if !both {
+			return false
+		}
+		var live []string
+		for _, g := range ServerGoroutines() {
+			if !knownLeaked[goroutineID(g)] && !strings.Contains(g, "harness.(*Listener).Accept") {
+				live = append(live, g)
+			}
+		}
+		if LastDumpIncomplete() {
+			return false
+		}
+		for _, g := range live {
+			if strings.Contains(g, "harness.(*End).Read") || strings.Contains(g, "harness.(*Backend).waitGate") || strings.Contains(g, "time.Sleep") {
+				return false
+			}
+		}
+		return len(BlockedStacks(live)) == len(live)
+	}
+	if !check() {
+		return false
+	}
+	time.Sleep(20 * time.Millisecond)
+	return check()
+}
+
 // GiveUp abandons a connection whose handlers are known to be deadlocked:
 // nothing will ever finish, so the remaining watchdogs are not sat through;
 // the stuck goroutines are remembered as leaked (later cases do not count
